@@ -456,7 +456,10 @@ def to_coq(c, o):
                 ops.append("%s %s %s %s" % ("DAdd" if k == "demux" else "SOpAdd", cstr(op["id"]), meta_term(op["nonce"], op["obfs"]),
                                             "true" if oo["ok"] else "false"))
             elif op["op"] == "rm":
-                ops.append("%s %s" % ("DRm" if k == "demux" else "SOpRm", cstr(op["id"])))
+                if k == "demux":
+                    ops.append("DRm %s" % cstr(op["id"]))
+                else:
+                    ops.append("SOpRm %s %s" % (cstr(op["id"]), lst(ev_term(e) for e in oo.get("evs", []))))
             elif op["op"] == "pkts":
                 ps = lst(pkt_term(p, c["buf"], s) for p, s in zip(op["pkts"], oo["stun"]))
                 if k == "demux":
